@@ -12,7 +12,7 @@
 From AK Require Import Base.Prelude Bytes.Text Bytes.FabHeader Bytes.BinFile
   Reader.Select Reader.BoxRead Reader.Level Reader.ReadSpec
   Writers.Colander Writers.ColanderSpec Writers.CombineProofs Writers.Chef Writers.ChefProofs Writers.Pipeline
-  Plotfile.TextHeader Plotfile.HeaderSpec Taste.Taste Plotfile.Abstract Writers.ColanderToolProofs Writers.ColanderPipeline Writers.Combine Writers.CombineSpec Writers.CombineToolProofs Writers.CombinePipeline Writers.ChefToolProofs Writers.ChefPipeline Writers.FullPipeline Props.C05 Props.C06 Props.C11.
+  Plotfile.TextHeader Plotfile.HeaderSpec Taste.Taste Plotfile.Abstract Writers.ColanderToolProofs Writers.ColanderPipeline Writers.Combine Writers.CombineSpec Writers.CombineToolProofs Writers.CombinePipeline Writers.ChefToolProofs Writers.ChefPipeline Writers.FullPipeline Writers.ReadBack Reader.GetItemProofs Props.C05 Props.C06 Props.C11.
 
 (* Any finite sequence of operations, each of which preserves well-formedness
    and refines its pure counterpart, ends in a well-formed state whose
@@ -115,6 +115,34 @@ Theorem C14_full_outputs_accepted : forall close ops pf pf' o limit lim,
   taste_good close o limit (pf_disk pf') = true.
 Proof. exact full_outputs_taste_good. Qed.
 Print Assumptions C14_full_outputs_accepted.
+
+(* ... and what a user READS from them: every level of the plotfile a chain
+   ends on lies in its directory as the binary files and the printed (file,
+   offset) table of the abstract level, and the indexing interface (C01) returns
+   on them, for every accepted field selection and every box selector, exactly
+   the contents of the composed pure operations - the strained / merged / cooked
+   boxes, in the order requested. *)
+Theorem C14_outputs_read_back : forall ops pf pf' pl a s,
+  good pf -> Forall fop_ok ops -> fpure ops pf = Some pf' ->
+  In pl (pf_levels pf') ->
+  (forall fb, In fb (lv_fabs (pl_level pl)) -> exists r, spec_read fb a = Some r) ->
+  run pdisk fop fop_tool ops (pf_disk pf) = Some (pf_disk pf') /\
+  In (lb_cell_dir (pl_boxes pl),
+      {| ld_cellh := Some (print_cellh (pf_nfields pf') (pl_cellh pl)); ld_files := lv_disk (pl_level pl) |})
+     (pd_dirs (pf_disk pf')) /\
+  stream_getitem (lv_disk (pl_level pl)) (cells_or_nil (pl_level pl)) a s = spec_getitem (pl_level pl) a s.
+Proof. exact chain_output_readable. Qed.
+Print Assumptions C14_outputs_read_back.
+
+(* ... and iterating a field selection over such a level (C15) yields every box
+   exactly once with the contents of the composed pure operations. *)
+Theorem C14_outputs_iterate : forall ops pf pf' pl a rs,
+  good pf -> Forall fop_ok ops -> fpure ops pf = Some pf' ->
+  In pl (pf_levels pf') ->
+  omap_all (fun fb => spec_read fb a) (lv_fabs (pl_level pl)) = Some rs ->
+  exists out, stream_iter_all (lv_disk (pl_level pl)) (cells_or_nil (pl_level pl)) a = Some out /\ Permutation.Permutation out rs.
+Proof. exact chain_output_iterable. Qed.
+Print Assumptions C14_outputs_iterate.
 
 (* non-vacuity: cook (keeping field 1), combine the cooked plotfile with the
    original, strain two fields - on the two-level plotfile of C11, level 1 in
